@@ -6,6 +6,8 @@ readers) with a unique id per row so that every output row identifies its input 
 """
 from __future__ import annotations
 
+import itertools
+
 from pathlib import Path
 
 import numpy as np
@@ -164,14 +166,41 @@ def run_merge_sort(case):
             # expected values after the library's own round trip
             back = [norm(pd.read_parquet(p) if fmt == "parquet" else pd.read_csv(p, sep="\t")) for p in paths]
             sizes = sorted({1, 2, int(rng.integers(1, total + 2)), total + 1})
-            for cs in sizes:
+            abandoned = []  # merges started earlier in this process and left partly consumed (a caller that takes the top rows)
+            for ci, cs in enumerate(sizes):
                 with core.chunk_sizes(MERGE_SORT_CHUNK_SIZE=cs):
-                    if cs % 2:
+                    history = ["none", "abandoned", "lockstep"][(ci + rep) % 3] if total >= 2 else "none"
+                    if history == "abandoned":
+                        def _start(k=int(rng.integers(1, total))):
+                            g = utils.merge_sort(paths, score_column=sc)
+                            abandoned.append((g, list(itertools.islice(g, k))))
+                        core.Call(_start)
+                        res.count("merges_after_abandoned_merge")
+                    if history == "lockstep":
+                        def _lock():
+                            g1 = utils.merge_sort(paths, score_column=sc)
+                            g2 = utils.merge_sort(paths[::-1], score_column=sc)
+                            o1, o2 = [], []
+                            for a_, b_ in itertools.zip_longest(g1, g2):
+                                if a_ is not None:
+                                    o1.append(a_)
+                                if b_ is not None:
+                                    o2.append(b_)
+                            return o1, o2
+                        c = core.Call(_lock)
+                        res.count("lockstep_merges")
+                        if c.ok:
+                            rows2 = norm(pd.DataFrame(c.value[1])).to_dict("records") if c.value[1] else []
+                            judge_rows(res, rows2, back, False, "merge_sort/lockstep_second",
+                                       dict(fmt=fmt, tie=tie, k=len(frames), lens=[len(f) for f in frames], chunk=cs, history=history))
+                            c.value = c.value[0]
+                    elif cs % 2:
                         c = core.Call(lambda: list(utils.merge_sort(paths, score_column=sc)))
                     else:
                         c = core.Call(lambda: list(utils.merge_sort(paths, sc)))
                 evals += 1
-                extra = dict(fmt=fmt, tie=tie, k=len(frames), lens=[len(f) for f in frames], chunk=cs, score_column=sc, distractor=distract)
+                extra = dict(fmt=fmt, tie=tie, k=len(frames), lens=[len(f) for f in frames], chunk=cs, score_column=sc, distractor=distract,
+                             history=history)
                 if not c.ok:
                     res.violate("crash", c.sig, msg=c.info["msg"], **extra)
                     continue
